@@ -253,6 +253,9 @@ def judge_kernel(evs, heights, results):
             # single-precision cancellation (Earth-centre angles of a few 1e-4 rad): measured up to 4.1e-4 at 86 deg;
             # these steep tracks are in the lattice to catch gross slips (a degree/radian confusion), not rounding
             tol = 1e-4 if b <= math.radians(42.0) + 1e-12 else 5e-3
+            # ... and a detector a few km from the decay point: both distances are differences of Earth-radius-sized
+            # single-precision numbers, worth 2 x (a few eps32) x R / |d| in the squared ratio (measured 1.8e-4 at 8 km)
+            tol = max(tol, 8 * 6e-8 * 6378.0 / max(abs(d_h), 1e-9))
             if not (abs(dh - exp) <= tol * abs(exp) + 1e-300):
                 out.append(("inverse_square_altitude_scaling", (h, b, a, E), exp, dh))
             if not (np.float64(ah).tobytes() == np.float64(a525).tobytes()):
@@ -362,7 +365,7 @@ def run(ctx):
     ctx.cov["wrapper_events"] = n
     ctx.sample({"kind": "wrapper", "altDec": 20.000000000000004, "PE_over_threshold": 2.0000000000000004, "area": 2.5, "qe": 0.2, "threshold": 10.0})
     # real kernel at several detector altitudes
-    heights = [33.0, 100.0, 400.0, 525.0, 1000.0, 36000.0]
+    heights = [12.0, 33.0, 100.0, 400.0, 525.0, 1000.0, 36000.0]  # (12 km: a detector inside the band of decay altitudes, decays below and above it)
     evs = kernel_events(tier)
     results = par.pmap(_kernel_eval, [(h, evs) for h in heights])
     v = judge_kernel(evs, heights, results)
